@@ -71,6 +71,9 @@ CFG = dict(
         "'writable = leader available' needs responses that mark a partition ErrLeaderNotAvailable exactly when its "
         "leader is not in the broker list they carry (Kafka brokers do); the code filters on the error code only",
         "the client is not closed while it is used; coordinators and the controller lookup are outside this property",
+        "a candidate 'answers' when the request sent to it in this attempt is answered: a request over a connection "
+        "that died since an earlier attempt counts as failing mid-request even if the address would accept a new "
+        "connection (sarama does not redial within the attempt; a known broker is then dropped, a seed set aside)",
     ],
     trusted_base=[],
 )
@@ -94,9 +97,11 @@ CFG["manifest"] = dict(
          "the real code (updateMetadata, cached and public getters with a scripted refresh through an in-package "
          "MockBroker, RefreshMetadata/NewClient over a simulated network with refused / mid-request-failing / closed "
          "/ answering addresses) against the compiled model, plus the property oracle against a reference view folded "
-         "from the responses, plus concurrent readers against a refreshing writer under the race detector.",
+         "from the responses, plus (in a process of its own, built with -race) concurrent readers against a refreshing "
+         "writer where every read must equal the view before or after a refresh in flight.",
     note="Trusted: Lean kernel; translator tools/extract + GoSem.lean; harness, overlay and line protocol. Modelled not "
-         "verified: atomicity of updateMetadata (lock discipline observed under -race, not proved), the fatal error "
+         "verified: atomicity of updateMetadata (presence of the lock/unlock statements is a regenerated fact, mutual "
+         "exclusion is observed under -race, not proved), the fatal error "
          "classes of tryRefreshMetadata (PacketEncodingError/SASL/topic authorization: in the model, not exercised; the "
          "translator cannot enter the type switch), deadlines/back-off, Close, coordinators.",
     technique="Lean 4 proof (induction over response lists and operation sequences, invariants) + regenerated bridge "
